@@ -216,6 +216,24 @@ pub fn c_state_red(s: &McState) -> String {
     format!("D{}{}|S{}|W{}", s.depth, c_nodes(s), c_store_red(&s.events), c_net(&s.network.verif_dump()))
 }
 
+/// the process-visible projection: per process its state and local outbox (what C04 compares)
+pub fn c_state_pv(s: &McState) -> String {
+    let mut out = String::new();
+    for ns in s.node_states.values() {
+        for (pn, pe) in &ns.proc_states {
+            let st = script_state(&pe.proc_state);
+            out.push_str(&format!(
+                "{{P{} i{} h[{}] o[{}]}}",
+                num(pn),
+                st.idx,
+                st.hist.iter().map(c_hentry).collect::<Vec<_>>().join(""),
+                pe.local_outbox.iter().map(c_msg).collect::<Vec<_>>().join(";")
+            ));
+        }
+    }
+    out
+}
+
 /// the projection the checker's state equality looks at
 pub fn c_state_eqp(s: &McState) -> String {
     let mut out = String::new();
